@@ -1,7 +1,6 @@
 //! Shared pieces: PRNG, aligned buffers, policies, the allocator wrapper and the emitter
 //! of request/expectation lines.
 
-use std::alloc::{Layout, alloc_zeroed, dealloc};
 use std::fmt::Write as _;
 use std::panic::{AssertUnwindSafe, catch_unwind};
 use std::sync::atomic::{AtomicU64, Ordering};
@@ -32,17 +31,45 @@ impl Rng {
     }
 }
 
-/// 64-byte aligned, zeroed, owned buffer
+/// 64-byte aligned, zeroed, owned buffer of *exactly* `len` bytes (C18): the bytes live at the end of an
+/// anonymous mapping that is followed (and preceded) by an inaccessible guard page, so an access past the end
+/// faults at once; the unused bytes in front of the buffer hold a canary that is checked when the buffer is
+/// dropped. (`len` is a multiple of 64 for all metadata sizes; otherwise up to 63 slack bytes remain.)
 pub struct Buf {
     pub ptr: *mut u8,
     pub len: usize,
+    map: *mut u8,
+    map_len: usize,
 }
 unsafe impl Send for Buf {}
 unsafe impl Sync for Buf {}
+const PAGE: usize = 4096;
+const CANARY: u8 = 0xA5;
+pub static GUARD_HITS: AtomicU64 = AtomicU64::new(0);
+pub static BUFS_CREATED: AtomicU64 = AtomicU64::new(0);
 impl Buf {
     pub fn new(len: usize) -> Self {
-        let ptr = unsafe { alloc_zeroed(Layout::from_size_align(len.max(64), 64).unwrap()) };
-        Self { ptr, len }
+        BUFS_CREATED.fetch_add(1, Ordering::Relaxed);
+        let data = len.next_multiple_of(64).next_multiple_of(PAGE).max(PAGE);
+        let map_len = data + 2 * PAGE;
+        unsafe {
+            let map = libc::mmap(std::ptr::null_mut(), map_len, libc::PROT_READ | libc::PROT_WRITE,
+                libc::MAP_PRIVATE | libc::MAP_ANONYMOUS, -1, 0) as *mut u8;
+            assert!(map as isize != -1, "mmap failed");
+            libc::mprotect(map.cast(), PAGE, libc::PROT_NONE);
+            libc::mprotect(map.add(PAGE + data).cast(), PAGE, libc::PROT_NONE);
+            let start = map.add(PAGE + data - len.next_multiple_of(64));
+            // canary in front of the buffer
+            std::ptr::write_bytes(map.add(PAGE), CANARY, data - len.next_multiple_of(64));
+            Self { ptr: start, len, map, map_len }
+        }
+    }
+    fn lead(&self) -> &[u8] {
+        unsafe { std::slice::from_raw_parts(self.map.add(PAGE), self.ptr as usize - (self.map as usize + PAGE)) }
+    }
+    /// the bytes in front of the buffer are untouched
+    pub fn canary_ok(&self) -> bool {
+        self.lead().iter().all(|b| *b == CANARY)
     }
     pub fn slice(&self) -> &'static mut [u8] {
         unsafe { std::slice::from_raw_parts_mut(self.ptr, self.len) }
@@ -67,7 +94,11 @@ impl Buf {
 }
 impl Drop for Buf {
     fn drop(&mut self) {
-        unsafe { dealloc(self.ptr, Layout::from_size_align(self.len.max(64), 64).unwrap()) }
+        if !self.canary_ok() {
+            GUARD_HITS.fetch_add(1, Ordering::Relaxed);
+            eprintln!("C18-GUARD: bytes in front of a metadata buffer of {} bytes were overwritten", self.len);
+        }
+        unsafe { libc::munmap(self.map.cast(), self.map_len) };
     }
 }
 
